@@ -34,7 +34,8 @@ from .union_model import Cm, incube
 OBLIGATION_FLOOR = 40
 Z3_TIMEOUT_MS = 40000
 UNITS = ['UnitCube', 'Union', 'NeuralBound', 'NautilusBound', 'Ellipsoid',
-         'Mixture', 'Union.restructure', 'NautilusBound.compute']
+         'Mixture', 'Union.restructure', 'NautilusBound.compute',
+         'NautilusBound.worker']
 BRANCH_COVERED_FUNCTIONS = ()
 DEAD_BRANCHES = ()
 _EX = {}
@@ -252,6 +253,9 @@ def build(cx, fe, tier, info, only=None):
                 info3['functions']
         if keep is not None:
             _EX['ex'] = keep
+    if only in (None, 'NautilusBound.worker'):
+        from .C07_nautilus import worker_units
+        worker_units(cx, fe, info)
     if only in (None, 'NautilusBound.compute'):
         from .C07_compute import compute_units
         compute_units(cx, fe, info)
